@@ -265,7 +265,8 @@ def run_plan(C, case, plan, use_global, findings, tag):
                     ns["PARENT_PALETTES"] = parents
                 if step["idx"]:
                     ns["acc"] = C.ConfColor(descs[step["idx"][0]]["id"])
-                cls = type(C.Palette)("GenPalette%d" % sn, (C.Palette,), ns)
+                # distinct classes may share a name (palettes made by a factory function): identity, not the name, counts
+                cls = type(C.Palette)("GenPalette%d" % (sn % 2), (C.Palette,), ns)
                 pal_info[cls] = (list(step["idx"]), parents)
                 if step["kind"] == "palette":
                     cls.register_in_colors_conf(conf)
